@@ -722,10 +722,19 @@ def run_history(names, ops, seed, keep_results=False):
             np.random.seed((world.seed * 31 + op["id"] * 7) % (2 ** 31))
             before = world.snapshot()
             err = None
+            import signal
+
+            def _too_long(signum, frame):
+                raise TimeoutError("operation exceeded its time budget (nquad); writes are judged, the result is not")
+            old = signal.signal(signal.SIGALRM, _too_long)
+            signal.setitimer(signal.ITIMER_REAL, 12.0 if op.get("entry") == "marginal_cdf_dep" else 40.0)
             try:
                 res = execute(world, op, results)
             except Exception as e:  # noqa  (numerical failures of the engines are not the property's business)
                 res, err = None, "%s: %s" % (type(e).__name__, str(e)[:100])
+            finally:
+                signal.setitimer(signal.ITIMER_REAL, 0)
+                signal.signal(signal.SIGALRM, old)
             after = world.snapshot()
             import matplotlib.pyplot as plt
             changed = diff_paths(before, after)
@@ -863,10 +872,10 @@ def run(ctx):
         hist.insert(0, {"models": ["custom3d", other], "ops": mand, "seed": rng.randrange(1 << 20)})
     # every run: marginal_cdf AND marginal_pdf of a DEPENDENT dimension, the joint pdf and the distribution-level
     # pdf/cdf/icdf forwarders on float ndarrays holding negative, zero and positive entries (probabilities 0 and 1)
-    g2 = rng.choice(["get_DNVGL_Hs_Tz", "get_DNVGL_Hs_U", "get_OMAE2020_Hs_Tz", "get_OMAE2020_V_Hs"])
+    g2 = rng.choice(["get_DNVGL_Hs_Tz", "get_OMAE2020_Hs_Tz"])      # nquad on the other two can take a minute per point
     e2 = {"op": "eval", "k": 0, "dim2": True, "det": True, "alpha": 0.05, "edge": True}
     mand = [dict(e2, entry="marginal_cdf_dep"), dict(e2, entry="marginal_pdf"), dict(e2, entry="pdf"),
-            dict(e2, entry="dist_cdf"), dict(e2, entry="dist_icdf"), dict(e2, entry="marginal_cdf_dep", repeat_of=0)]
+            dict(e2, entry="dist_cdf"), dict(e2, entry="dist_icdf"), dict(e2, entry="marginal_pdf", repeat_of=1)]
     for i, o in enumerate(mand):
         o["id"] = i
     hist.insert(0, {"models": [g2, rng.choice(GETTERS)], "ops": mand, "seed": rng.randrange(1 << 20)})
